@@ -55,6 +55,12 @@ ConcStep(To, e) ==
     ELSE IF e.ev \in {"commit", "awrite"}
     THEN LET cl == To.call[e.c] IN
          IF cl.op = "none" THEN V(FALSE, To, "harness: commit outside a call")
+         ELSE IF cl.op = "setmaxlen" /\ cl.a.m >= 0 /\
+                 ~(\E k \in 0..Len(To.D.items) : e.items = SubSeq(To.D.items, k + 1, Len(To.D.items))
+                                                  /\ (k > 0 => Len(To.D.items) > cl.a.m /\ Len(e.items) >= cl.a.m))
+         THEN \* a lowered maxlen discards from the left, and only while the deque is longer than the new bound
+              V(FALSE, To, "C11 lowering maxlen to " \o ToString(cl.a.m) \o " discarded items of a deque that was not longer than that (" \o
+                           ToJson(To.D.items) \o " -> " \o ToJson(e.items) \o ")")
          ELSE IF Multi(cl.op)
          THEN \* composed operations commit step by step; contents are re-synchronised (not atomic by design);
               \* lookups in flight may observe the intermediate contents
